@@ -39,6 +39,8 @@ var keyAlphabet = []string{
 	"/tables/a", "/tables/b", "/tables/a/lease", "/tables/b/lease", "/tables/sys/idseq", "/tables/ab", "/tables/",
 	"/cleanup/1/10001", "/cleanup/1/10002", "/cleanup/2/10001", "/cleanup/11/10001",
 	"queue/a/1", "queue/a/2", "queue/b/1", "queue/ab/1", "x", "",
+	// relative keys that differ from the queue keys in their FIRST element only / share a name prefix with it (seeded change C13-L)
+	"quota/a/7", "queue2/audit/1", "backup/tables/a/manifest",
 	// keys holding the characters the glob syntax gives a meaning to
 	"/jobs/a*b/1", "/jobs/aXb/1", "/jobs/[x]", "/jobs/x", "/jobs/q?", "/jobs/qq", `/jobs/back\slash`,
 }
@@ -49,7 +51,7 @@ var patterns = []string{"/tables/*", "/cleanup/1/*", "/cleanup/2/*", "queue/a/*"
 	"/tables/?", "/tables/[ab]", "/tables/[^a]*", "/tables/[a-c]/*", "queue/?/[12]", `/jobs/a\*b/*`, `/jobs/a\*b/1`, `/jobs/a*b/*`, `/jobs/\[x\]`, `/jobs/q\?`, `/jobs/q?`,
 	`/jobs/back\\slash`, `/jobs/*\**`, `\/tables/a`, `/tables\/*`}
 
-var listPaths = []string{"/tables", "/tables/", "/cleanup", "/cleanup/1", "queue", "queue/a", "/", "/tables/a"}
+var listPaths = []string{"/tables", "/tables/", "/cleanup", "/cleanup/1", "queue", "queue/a", "/", "/tables/a", "queue2", "quota"}
 
 var values = []string{"", "v", "10001", `{"name":"a","cluster_id":10001,"recover_id":0}`, "quote\"back\\slash", "üñí-✓", "line\nbreak\ttab", "<html>&amp;"}
 
@@ -122,6 +124,18 @@ func callerGlob(pattern, key string) (bool, bool) {
 	return !strings.Contains(key[len(prefix):], "/"), true
 }
 
+// cleanPath: a well-formed path - non-empty, not the root, no empty / dot elements, no trailing slash
+func cleanPath(p string) bool { return p != "" && p != "/" && p != "." && path.Clean(p) == p }
+
+func modelKeys(m map[string]mpair) []string {
+	var ks []string
+	for k := range m {
+		ks = append(ks, k)
+	}
+	sort.Strings(ks)
+	return ks
+}
+
 func snapshotBytes(f *kv.LFSM) ([]byte, error) {
 	ctx, err := f.PrepareSnapshot()
 	if err != nil {
@@ -178,6 +192,7 @@ func run(c Case, o *vt.Obs) *vt.Failure {
 		return nil
 	}
 	model := map[string]mpair{}
+	cleanListings := 0
 	index := uint64(0)
 	maxVer := uint64(0)
 	var pendingB []sm.Entry // replica B applies updates in generated groups
@@ -374,6 +389,49 @@ func run(c Case, o *vt.Obs) *vt.Failure {
 			if (gerr == nil) != (werr == nil) || !reflect.DeepEqual(got, want) {
 				return vt.Failf(prop+"/listing", i, "%s %q = %v, %v; a store holding exactly the successful updates answers %v, %v", op.Kind, op.Pattern, got, gerr, want, werr)
 			}
+			if (op.Kind == "list" || op.Kind == "listdir") && gerr == nil && cleanPath(op.Pattern) {
+				// an independent reading of "directory listing" for well-formed paths (the comparison above is against the same code):
+				// list = the next path element of every key below the path (and the path's own last element if it is a key itself),
+				// listdir = the next element of every key at least two levels below it.  Keys that are not clean paths ("", "/tables/")
+				// are left to the implementation: with such keys present only "nothing is missing" is asserted.
+				ref, allClean := map[string]bool{}, true
+				pt := strings.Split(op.Pattern, "/")
+				for k := range model {
+					if !cleanPath(k) {
+						allClean = false
+						continue
+					}
+					kt := strings.Split(k, "/")
+					if op.Kind == "list" && k == op.Pattern {
+						ref[kt[len(kt)-1]] = true
+						continue
+					}
+					need := len(pt) + 1
+					if op.Kind == "listdir" {
+						need = len(pt) + 2
+					}
+					if len(kt) >= need && reflect.DeepEqual(kt[:len(pt)], pt) {
+						ref[kt[len(pt)]] = true
+					}
+				}
+				gotSet := map[string]bool{}
+				for _, n := range got.([]string) {
+					gotSet[n] = true
+				}
+				for n := range ref {
+					if !gotSet[n] {
+						return vt.Failf(prop+"/listing-misses-an-entry", i, "%s %q = %v: %q is missing (keys: %v)", op.Kind, op.Pattern, got, n, modelKeys(model))
+					}
+				}
+				if allClean {
+					for n := range gotSet {
+						if !ref[n] {
+							return vt.Failf(prop+"/listing-shows-a-foreign-entry", i, "%s %q = %v: no key below that path accounts for %q (keys: %v)", op.Kind, op.Pattern, got, n, modelKeys(model))
+						}
+					}
+					cleanListings++
+				}
+			}
 		case "snapshot":
 			snapshots++
 			if f := flushB(); f != nil {
@@ -463,6 +521,9 @@ func run(c Case, o *vt.Obs) *vt.Failure {
 	}
 	if snapshots > 0 {
 		o.Label("snapshot-restore")
+	}
+	if cleanListings > 0 {
+		o.Label("listing-judged-by-the-independent-reference")
 	}
 	o.NonTrivial = both && snapshots > 0
 	o.Describe = func() string { return fmt.Sprintf("%+v", c.Ops) }
